@@ -231,6 +231,14 @@ pub fn run_auth(args: &Args) -> (u64, u64) {
             vec!["PRE", "PREFIX", "PREFIXES", "PREFIXESPREFIXES"],
             vec!["AB", "BA", "A", "B", "AA"],
         ];
+        // one user name, passwords of decreasing and increasing length one after the other (a prefix, a longer one, one character)
+        h.reset("auth-related-passwords");
+        for name in ["CAROL", "carol16characters"[..16].as_ref()] {
+            for pass in ["PW123LONGER", "PW123", "PW123LONGERSTILL", "P", "PW123LONGER", "PW", "pw123longer"] {
+                let prm = Params { user: name, pass, typed_user: name, typed_pass: pass, salt: None, b: None, a: None, storage: false };
+                honest_login(&mut h, &prm);
+            }
+        }
         for (fi, fam) in fams.iter().enumerate() {
             h.reset("auth-related-names");
             for rep in 0..2 {
@@ -318,6 +326,7 @@ pub fn run_tamper(args: &Args) -> (u64, u64) {
         // the untouched exchange
         let (pc, pp) = clone_proof(&mut h, po, &proof);
         let Some((_so, _server, m2)) = h.into_server(pc, pp, apub, m1) else { continue };
+        let _server_key: Option<[u8; 40]> = Some(*_server.session_key());
         let cc = h.clone_event(co);
         h.verify_server_proof(cc, chal.clone(), m2);
         // directly after the success: the captured (A, M1) replayed against a NEW proof of the same account (new b, B),
@@ -391,6 +400,31 @@ pub fn run_tamper(args: &Args) -> (u64, u64) {
                 if t != m2 {
                     let cc = h.clone_event(co);
                     h.verify_server_proof(cc, chal.clone(), t);
+                }
+            }
+        }
+        // proofs an attacker who knows K could build from NEAR-MISS ingredients: the name in another spelling, the
+        // other side's roles swapped, the salt reversed, H(N) xor H(g) left out - the server accepts the one M1 only
+        if let Some(k) = _server_key {
+            let mut xor = sha1cat(&[&N_LE]);
+            let hg = sha1cat(&[&[7u8]]);
+            for i in 0..20 { xor[i] ^= hg[i]; }
+            let up = u.to_ascii_uppercase();
+            let lo = u.to_ascii_lowercase();
+            let mut rsalt = salt; rsalt.reverse();
+            let cands: Vec<[u8; 20]> = vec![
+                sha1cat(&[&xor, &sha1cat(&[lo.as_bytes()]), &salt, &abytes, &bbytes, &k]),
+                sha1cat(&[&xor, &sha1cat(&[u.as_bytes()]), &salt, &abytes, &bbytes, &k]),
+                sha1cat(&[&xor, &sha1cat(&[up.as_bytes()]), &salt, &bbytes, &abytes, &k]),
+                sha1cat(&[&xor, &sha1cat(&[up.as_bytes()]), &rsalt, &abytes, &bbytes, &k]),
+                sha1cat(&[&sha1cat(&[up.as_bytes()]), &salt, &abytes, &bbytes, &k]),
+                sha1cat(&[&xor, up.as_bytes(), &salt, &abytes, &bbytes, &k]),
+                sha1cat(&[&abytes, &m1, &k]),
+            ];
+            for t in cands {
+                if t != m1 {
+                    let (pc, pp) = clone_proof(&mut h, po, &proof);
+                    h.into_server(pc, pp, apub, t);
                 }
             }
         }
@@ -554,6 +588,11 @@ pub fn run_reconnect(args: &Args) -> (u64, u64) {
                     }
                     if t == r.proof { None } else { Some((r.challenge_data, t)) }
                 }),
+                "reflect" => {
+                    // the client happens to (or chooses to) send the server's own challenge as its data: a correct proof
+                    // over it is a correct proof
+                    Some((chal, sha1cat(&[uname.as_bytes(), &chal, &chal, &key])))
+                }
                 "garbage" => {
                     let mut cd = [0u8; 16];
                     let mut pr = [0u8; 20];
@@ -583,6 +622,22 @@ pub fn run_reconnect(args: &Args) -> (u64, u64) {
     if let Some(mut s) = honest_login(&mut h, &prm) {
         for _ in 0..long {
             good_reconnect(&mut h, &mut s);
+        }
+        // runs of rejected attempts of growing length (1, 2, 4, ... 64; thorough up to 1024), each followed by the
+        // legitimate client: however many refusals went before, the right proof for the current challenge gets in
+        let mut run = 1usize;
+        while run <= (if args.tier == "thorough" { 1024 } else { 64 }) {
+            for j in 0..run {
+                let mut cd = [0u8; 16];
+                let mut pr = [0u8; 20];
+                rng.fill_bytes(&mut cd);
+                rng.fill_bytes(&mut pr);
+                if j % 3 == 1 { pr = [0u8; 20]; }
+                h.verify_reconnect(s.so, &mut s.server, cd, pr, "garbage");
+            }
+            good_reconnect(&mut h, &mut s);
+            good_reconnect(&mut h, &mut s);
+            run *= 2;
         }
     }
     h.tr.finish()
@@ -951,6 +1006,14 @@ pub fn run_ownkey(args: &Args) -> (u64, u64) {
             nn[0] = n;
             for a in [[0u8; 32], one, [0xff; 32], [0x55; 32]] {
                 h.client_new("OWNKEY", "X", g, nn, bpub, [1u8; 32], Some(&a));
+                // whatever the client just did with an announced modulus (it may have refused its own key by
+                // panicking), keys received afterwards on this thread are judged against the built-in prime
+                h.pubkey(nn);
+                h.pubkey(N_LE);
+                h.pubkey([0u8; 32]);
+                let mut g32 = [0u8; 32];
+                g32[0] = g;
+                h.pubkey(g32);
             }
         }
     }
